@@ -1018,6 +1018,7 @@ func (fa *FnAnalysis) bump(st *State, in ssa.Instruction, locs ...string) {
 // each outgoing edge.  When record is set, per-instruction states and return
 // states are kept.
 func (fa *FnAnalysis) flowBlock(b *ssa.BasicBlock, ins []*State, record bool) {
+	checkBudget()
 	cur := make([]*State, 0, len(ins))
 	for _, s := range ins {
 		cur = append(cur, s.clone())
